@@ -129,3 +129,4 @@ def run(res, facts, tier):
     _run_c10_prev_lookup(res, facts, tier)
     from . import c10_lookup
     c10_lookup.run_rule(res, facts, tier)
+    c10_lookup.run_select_rule(res, facts, tier)
